@@ -301,6 +301,7 @@ def run(chk, replay=None):
         results = list(ex.map(work, range(nshard)))
 
     ndis = 0
+    broken_cases = set()
     for k, (obs, deaths, ans) in enumerate(results):
         for (ci, rc, se) in deaths:
             case = shards[k][ci]
@@ -354,7 +355,8 @@ def run(chk, replay=None):
                 want = "ok" if expected == "-" else expected
                 if a != want:
                     ndis += 1
-                    if ndis <= 5 and oracle == "ok":
+                    if len(broken) < 8 and oracle == "ok" and (k, ci) not in broken_cases:
+                        broken_cases.add((k, ci))
                         what = ("model and code disagree" if expected != "-" else
                                 "the driver's step relation rejects an observed execution")
                         broken.append(f"{what} ({a!r} vs {want!r}) on observation #{j} of case `{case}`: {req[:600]}")
